@@ -125,6 +125,41 @@ def pipeline(tier):
         return res
 
 
+def _scan_prediction_holds(es, got, op_writes, geom, events, crash_ev):
+    """es: the in-flight batch's entries (key, size) in order; got: entries delivered after recovery;
+    op_writes: [[offset, length, made], ...] one per entry. None when the evidence is missing."""
+    if not op_writes or len(op_writes) != len(es) or not es:
+        return None
+    block = 2048 if geom == "tiny" else 10 * 1024 * 1024
+    predicted, alive = [], True
+    for j, (off, ln, made) in enumerate(op_writes):
+        if j == 0 or off % block == 0:
+            alive = True                      # a new block (or the writer's current block): the scan starts afresh
+        alive = alive and bool(made)
+        if alive:
+            predicted.append(j)
+    # delivered after recovery = (a suffix of the acknowledged log) ++ (the recovered part of the in-flight batch);
+    # compare the tail with the predicted part and the rest with the acknowledged log (robust to equal payloads)
+    topic = (crash_ev.get("inflight") or [None, None])[1]
+    idx = events.index(crash_ev) if crash_ev in events else len(events)
+    acked = []
+    for e in events[:idx]:
+        if e.get("t") != topic or e.get("res") != "ok":
+            continue
+        if e.get("ev") == "append":
+            acked.append((e.get("k"), e.get("size")))
+        elif e.get("ev") == "batch":
+            acked += [tuple(y) for y in e.get("es", [])]
+    want = [es[j] for j in predicted]
+    if len(got) < len(want):
+        return False
+    tail = got[len(got) - len(want):]
+    rem = got[:len(got) - len(want)]
+    if tail != want:
+        return False
+    return len(rem) <= len(acked) and rem == acked[len(acked) - len(rem):]
+
+
 def _crash_check(pid, tier, own, use_atomic=False, rule_extra=""):
     ck = PE.EngineCheck(pid, tier)
     mc = PE.contract_mc(tier)
@@ -188,6 +223,11 @@ def _crash_check(pid, tier, own, use_atomic=False, rule_extra=""):
             # writes were all made is recovered whole by the unchanged engine
             wt, wd = r0.get("op_writes_total"), r0.get("op_writes_done")
             div["all_batch_writes_done"] = None if wt is None else bool(wt > 0 and wd >= wt)
+            # What the recovery scan can reach of a partially written batch (WalrusBlocks `Scan`/`DiskSet`: a block is
+            # the longest run of valid entries from its start; a unit without a valid first header is skipped): per
+            # block of the batch, the longest prefix of entries whose writes were made. The finding covers exactly that.
+            div["recovered_as_scan_predicts"] = _scan_prediction_holds(es, got, r0.get("op_writes"), r0.get("geom"),
+                                                                       groups[g], crash_ev)
         if not own(div):
             ck.unattributed += 1
             continue
